@@ -246,9 +246,11 @@ ConfRemoteOK(e) ==
                 op == RP!RemoteOp(SnapPaused(pr), PhRec(pr.phfirst[k].o))
                 did(v) == \E i \in DOMAIN pr.phw : pr.phw[i] = <<k, v>>
                 any == \E i \in DOMAIN pr.phw : pr.phw[i][1] = k
-            IN IF e.res = "ok" /\ ~pr.apiErr
-                 THEN (op = "create" => did("Create")) /\ (op = "patch" => did("MergePatch")) /\ (op = "none" => ~any)
-                 ELSE any => ((op = "create" /\ did("Create")) \/ (op = "patch" /\ did("MergePatch")))
+            IN /\ IF e.res = "ok" /\ ~pr.apiErr
+                    THEN (op = "create" => did("Create")) /\ (op = "patch" => did("MergePatch")) /\ (op = "none" => ~any)
+                    ELSE any => ((op = "create" /\ did("Create")) \/ (op = "patch" /\ did("MergePatch")))
+               \* the pass that creates the phase object ends with an error (RemotePhase!CreateAbortsPass)
+               /\ (RP!PassAborts(SnapPaused(pr), PhRec(pr.phfirst[k].o)) /\ did("Create") /\ ~pr.apiErr) => e.res = "err"
 
 TrPassEnd ==
     /\ (IsEv("PassEnd") \/ IsEv("Panic") \/ IsEv("Timeout"))
@@ -925,6 +927,14 @@ Inv_C08_SharedObjectNotDeleted ==
 (* Conformance of the deployment controller with DeployPlan!Plan (definitions next to TrPassEnd) *)
 Conf_DeployPlan == lw.conf
 Conf_RemotePhase == lw.confR
+
+---------------------------------------------------------------------------
+(* C10, the trigger side of convergence: a refused adoption is a state nothing wakes the owner from (the colliding
+   object is not the owner's, its changes are not mapped to the owner; the owner's own status write is filtered out) -
+   every pass that ends in it, the first and every later one, asks to be run again *)
+Inv_C10_RetryArmed ==
+    (PassEnded /\ PE.hasSnap /\ Rollout(PE) /\ ~PE.apiErr /\ W.res = "ok" /\ \E k \in Keys : IsRefusal(PE.verdict[k]))
+    => W.args.requeue
 
 ---------------------------------------------------------------------------
 (* C10 convergence: the end state the spec tracked (from the events of the disturbed run) equals the end state of
